@@ -152,10 +152,22 @@ def read(ctx, depth=0):
     if len(ms) != 1:
         raise Unrecognised('ConnectionState::process: `match frame` not found')
     m = ms[0]
+    # when the `match frame` is the last thing the function does before its tail `Ok(())`, an arm that ends early with
+    # `return Ok(())` and an arm that runs to its end are the same arm: such returns are not script steps
+    body = fn['hir']
+    while body.get('k') == 'Block' and not body.get('stmts') and body.get('expr') is not None:
+        body = body['expr']
+    falls_through = False
+    if body.get('k') == 'Block' and body.get('stmts') and body.get('expr') is not None:
+        last = body['stmts'][-1]
+        tail = H.peel(body['expr'])
+        falls_through = last.get('k') in ('Semi', 'ExprStmt') and H.peel(last.get('e') or {}) is m and H.term(tail) in ('Ok(())', 'std::prelude::v1::Ok(())')
     arms = []
     for i, a in enumerate(m['arms']):
         keys = [key_of(alt) for alt in H.pat_alternatives(a['pat'])]
         evs = [e for e in events if any(g[0] == m['sp'] and g[1] == 'arm:%d' % i for g in e.guards)]
+        if falls_through:
+            evs = [e for e in evs if not (e.kind == 'ret' and S.show(e.term) == 'Ok(())')]
         if a.get('guard') is not None:
             raise Unrecognised('guarded arm in `match frame`')
         arm = Arm(i, a, keys, evs)
